@@ -15,12 +15,66 @@ HERE = os.path.dirname(os.path.abspath(__file__))
 sys.path.insert(0, os.path.dirname(HERE))
 
 
+def _arm_watchdog(tier: str) -> None:
+    """a run that exceeds its wall budget is INCONCLUSIVE (exit 2), never a violation"""
+    import multiprocessing
+    import threading
+
+    budget = float(os.environ.get("VERIF_TIMEOUT") or (1500 if tier == "quick" else 4 * 3600))
+
+    def fire():
+        try:
+            print(f"HARNESS-ERROR (inconclusive, not a violation): wall budget of {budget:.0f}s exceeded", flush=True)
+            for p in multiprocessing.active_children():
+                try:
+                    p.kill()
+                except Exception:
+                    pass
+            # grandchildren (pools started by the code under test)
+            try:
+                import signal
+
+                me = os.getpid()
+                for pid in _descendants(me):
+                    try:
+                        os.kill(pid, signal.SIGKILL)
+                    except Exception:
+                        pass
+            except Exception:
+                pass
+        finally:
+            os._exit(2)
+
+    t = threading.Timer(budget, fire)
+    t.daemon = True
+    t.start()
+
+
+def _descendants(root: int) -> list:
+    kids: dict = {}
+    for d in os.listdir("/proc"):
+        if d.isdigit():
+            try:
+                with open(f"/proc/{d}/stat") as f:
+                    parts = f.read().rsplit(")", 1)[1].split()
+                kids.setdefault(int(parts[1]), []).append(int(d))
+            except Exception:
+                pass
+    out, stack = [], [root]
+    while stack:
+        for k in kids.get(stack.pop(), []):
+            out.append(k)
+            stack.append(k)
+    return out
+
+
 def main() -> int:
     ap = argparse.ArgumentParser()
     ap.add_argument("prop")
     ap.add_argument("--tier", default=os.environ.get("VERIF_TIER") or "quick", choices=["quick", "thorough"])
     ap.add_argument("--replay", default=None)
     args = ap.parse_args()
+    _arm_watchdog(args.tier)
     try:
         from mzverif import core
 
